@@ -994,6 +994,9 @@ class F:
     initvar: bool = False
     fbod: bool = False
     cons: Optional[Dict[str, Any]] = None
+    ser_if: Optional[str] = None  # name of a predicate of the prelude: skip(serialization_if=...)
+    ser_default: bool = False  # skip(serialization_default=True)
+    default_as_set: bool = False
     extra_md: List[str] = dfield(default_factory=list)  # other metadata source fragments (order(...), skip(...), ...)
 
     @property
@@ -1057,6 +1060,8 @@ class ObjectT(T):
     frozen: bool = False
     extra_decorators: List[str] = dfield(default_factory=list)
     extra_body: List[str] = dfield(default_factory=list)
+    methods: List[dict] = dfield(default_factory=list)  # serialized methods: {name, ret: T, expr, alias, prop}
+    fields_set: bool = False  # @with_fields_set
 
     @property
     def named(self):
@@ -1066,7 +1071,7 @@ class ObjectT(T):
         return self.name
 
     def children(self):
-        return [f.t for f in self.fields]
+        return [f.t for f in self.fields] + [m["ret"] for m in self.methods]
 
     def sig(self):
         feats = []
@@ -1105,8 +1110,15 @@ class ObjectT(T):
             md.append("properties")
         if f.required_md:
             md.append("required")
-        if f.skip_deser or f.skip_ser:
-            md.append(f"skip(deserialization={f.skip_deser}, serialization={f.skip_ser})")
+        if f.skip_deser or f.skip_ser or f.ser_if or f.ser_default:
+            args = [f"deserialization={f.skip_deser}", f"serialization={f.skip_ser}"]
+            if f.ser_default:
+                args.append("serialization_default=True")
+            if f.ser_if:
+                args.append(f"serialization_if={f.ser_if}")
+            md.append(f"skip({', '.join(args)})")
+        if f.default_as_set:
+            md.append("default_as_set")
         if f.none_as_undefined:
             md.append("none_as_undefined")
         if f.fbod:
@@ -1123,6 +1135,8 @@ class ObjectT(T):
                 lines.append(d)
             if self.class_aliaser:
                 lines.append(f"@alias(CLASS_ALIASERS[{self.class_aliaser!r}])")
+            if self.fields_set:
+                lines.append("@with_fields_set")
             lines.append(f"@dataclass(frozen={self.frozen})" if self.frozen else "@dataclass")
             lines.append(f"class {self.name}:")
             initvars = []
@@ -1154,6 +1168,15 @@ class ObjectT(T):
                     lines.append(f"        object.__setattr__(self, 'seen_{f.name}', {f.name})")
             if self.dep_req:
                 lines.append("    _dr = dependent_required({" + ", ".join(f"{k!r}: {list(v)!r}" for k, v in self.dep_req.items()) + "})")
+            for m in self.methods:
+                lines.append(f"    @serialized({m['alias']!r})" if m.get("alias") else "    @serialized")
+                if m.get("prop"):
+                    lines.append("    @property")
+                ret = m["ret"].ann()
+                if m.get("undefined"):
+                    ret = f"Union[{ret}, UndefinedType]"
+                lines.append(f"    def {m['name']}(self) -> {ret}:")
+                lines.append(f"        return {m['expr']}")
             lines += self.extra_body
         elif self.kind == "namedtuple":
             if self.class_aliaser:
@@ -1389,6 +1412,14 @@ from pathlib import Path
 from uuid import UUID
 from vf.spec import CLASS_ALIASERS
 NoneType = type(None)
+
+
+def vf_is_falsy(x):
+    return not x
+
+
+def vf_is_negative(x):
+    return isinstance(x, (int, float)) and not isinstance(x, bool) and x < 0
 """
 
 _counter = [0]
